@@ -33,12 +33,12 @@ def make_copy(tag):
     return d
 
 
-def ingest(prop, wt, ns):
+def ingest(prop, wt, ns, offset=0):
     src = os.path.join(wt, "_seed")
     if not ns:
         ns = sorted(os.listdir(src))
     for n in ns:
-        sid = "%s-s%s" % (prop, n)
+        sid = "%s-s%s" % (prop, int(n) + offset)
         dst = os.path.join(VERIF, "seeded", sid)
         os.makedirs(dst, exist_ok=True)
         for f in ("patch.diff", "demo.py", "notes.md"):
@@ -99,7 +99,12 @@ def check(sid, tier="quick", tests=True):
 
 if __name__ == "__main__":
     if sys.argv[1] == "ingest":
-        ingest(sys.argv[2], sys.argv[3], sys.argv[4:])
+        rest = sys.argv[4:]
+        off = 0
+        if "--offset" in rest:
+            off = int(rest[rest.index("--offset") + 1])
+            rest = [x for i, x in enumerate(rest) if x != "--offset" and (i == 0 or rest[i - 1] != "--offset")]
+        ingest(sys.argv[2], sys.argv[3], rest, off)
     elif sys.argv[1] == "check":
         a = sys.argv[2:]
         tier = "quick"
